@@ -63,7 +63,8 @@ def api_scripts(rng: random.Random, count: int) -> List[dict]:
             calls.append(["set_word", rng.choice(edge), rng.randrange(1 << 64)])
         nrun = rng.choice([0, 1, 1, 2])
         for _ in range(nrun):
-            calls.append(["run", {"last_ops_length": rng.choice([0, 0, 1, 3, -5, 1000])}])
+            # (the last-ops length is caller-controlled too: huge values must be refused, not wrapped into a small allocation)
+            calls.append(["run", {"last_ops_length": rng.choice([0, 0, 1, 3, -5, 1000, 1 << 40, 1 << 61, (1 << 61) + 1, 1 << 62, (1 << 63) - 1])}])
             for _ in range(rng.randint(0, 4)):
                 if rng.random() < 0.5:
                     calls.append(["get_word", rng.choice(edge + [rng.randrange(1 << 64)])])
